@@ -7,6 +7,7 @@ import NurbsVerif.Lemmas.KnotVec
 import NurbsVerif.Lemmas.KnotVec2
 import NurbsVerif.Lemmas.BasisOne2
 import NurbsVerif.Lemmas.BasisDersOne2
+import NurbsVerif.Lemmas.UniqueLocal
 
 /-!
 # C03  Basis functions and knot-span search satisfy their defining identities
@@ -314,5 +315,18 @@ example : ((basisFunDersOne 3 (fun i : ℕ => if i ≤ 3 then (0:ℚ) else 1) 1 
 example : (knotGenerate 2 5 true (1/10000000 : ℚ) : List ℚ) = [0, 0, 0, 1/3, 2/3, 1, 1, 1] := by decide +kernel
 example : ([1, 2, 4, 7] : List ℚ) ≠ [] ∧ ([1, 2, 4, 7] : List ℚ).headD 0 < ([1, 2, 4, 7] : List ℚ).getLastD 0 := by
   decide +kernel
+
+/-- **The `p + 1` non-vanishing basis functions of a non-empty span are linearly independent**: if a
+    combination `Σ_r c_r · N_{κ-p+r,p}(u)` of the values A2.2 returns vanishes at every parameter of the span
+    `[U_κ, U_{κ+1})` (sorted knots, `p ≤ κ`), all coefficients are zero.  Hence B-spline coefficients are unique
+    (C02 `span_polynomial_determines_control_points`, C06 `control_points_unique`). -/
+theorem basisFuns_linearly_independent (p : ℕ) (U : ℕ → K) (κ : ℕ) (hm : Monotone U) (hspan : U κ < U (κ+1))
+    (hp : p ≤ κ) (c : ℕ → K)
+    (h : ∀ u, U κ ≤ u → u < U (κ+1) → ∑ r ∈ Finset.range (p+1), (basisFuns p U κ u).getD r 0 * c r = 0)
+    (r : ℕ) (hr : r ≤ p) : c r = 0 :=
+  basisFuns_lin_indep p U κ hm hspan hp c h r hr
+
+/-- non-vacuity: on the span `[0, 1)` of `0,0,0,1,1,1` the three quadratic Bernstein values at `1/2` -/
+example : basisFuns 2 (fnOf ([0,0,0,1,1,1] : List ℚ)) 2 (1/2) = [1/4, 1/2, 1/4] := by decide +kernel
 
 end C03
